@@ -1,7 +1,8 @@
 // C03: AsyncLoop honours its start/stop/destroy protocol on every interleaving.
 // Engine mcsched: every schedule of {controller thread, loop thread (+ pool worker)} up to a
 // deviation bound, for every controller script over {start, stop} of length <= 3 (thorough 4)
-// followed by destruction, for THREAD launch and TASK launch.
+// followed by destruction, for THREAD launch and TASK launch.  Script letters: S = start() and wait
+// until the body has run again (lost wake-up oracle), s = start() and carry on at once, P = stop().
 #include "mcsched/mcsched.h"
 
 #include "rkcommon/tasking/AsyncLoop.h"
@@ -43,8 +44,18 @@ static void run_script(const char *script, AsyncLoop::LaunchMethod method)
         },
         method);
     bool running = false;
+    // the canonical schedule lets the freshly launched loop thread run until it parks in its
+    // wait (the state in which real callers normally find it); starting the script against a
+    // loop thread that has not parked yet costs one deviation
+    mc_yield();
     for (const char *c = script; *c; c++) {
-      if (*c == 'S') {
+      if (*c == 's') {
+        // start() without waiting for the body: the next call follows immediately
+        m->allowed.store(1);
+        loop.start();
+        running = true;
+        mc_event("start-nowait");
+      } else if (*c == 'S') {
         while (sem_trywait(&m->progress) == 0) {
         }
         m->allowed.store(1);
@@ -99,6 +110,7 @@ struct Reg
     for (size_t i = 0; i < scripts.size(); i++)
       if (scripts[i].size() < 4) {
         scripts.push_back(scripts[i] + "S");
+        scripts.push_back(scripts[i] + "s");
         scripts.push_back(scripts[i] + "P");
       }
     for (auto &s : scripts) {
@@ -106,9 +118,10 @@ struct Reg
       for (int task = 0; task < 2; task++) {
         std::string name = std::string(task ? "task_" : "thread_") + s;
         // quick: scripts up to 3 at bound 2; thorough: short scripts bound 4, length-4 scripts bound 3
-        int bq = lng ? -1 : 2;
+        int bq = lng ? -1 : (s.size() <= 2 ? 3 : 2);
         int bt = lng ? 3 : 4;
         if (task) {  // three threads (controller, worker, loop): one level less
+          bq = lng ? -1 : 2;
           bt = lng ? 2 : 3;
         }
         new McRegister(strdup(name.c_str()), scenario_entry, bq, bt, 6000);
